@@ -106,7 +106,10 @@ func run(c *core.Ctx) {
 		if (i-1)%nShards != shard || c.Expired() {
 			return
 		}
-		caseNo, _ := c.Begin()
+		caseNo, run := c.Begin()
+		if c.Skip(caseNo, run, Input{Family: family, Index: i - 1, Desc: desc, Files: ircmp.Files(w, w.Order), Augs: augs}) {
+			return
+		}
 		f, execs := check(w, family == "cfg")
 		if execs == 0 {
 			c.Exclude()
